@@ -52,6 +52,137 @@ def Obj.blocks : Obj → Nat
   | .facL _ ws => if ws then 1 else 7
   | .facU _ ws => if ws then 1 else 4
 
+/-! ### What each object consists of, as access paths
+
+`Obj.blocks` above is a count.  The table below names the blocks: for every object the caller can be handed, the
+pointer fields reachable from it, where each pointer comes from, which routine builds the object and which routine
+is documented to release it.  It is compared with the TEXT of the constructing and releasing routines on every run
+(`tools/ownscan.py` -> `Slu/Gen/Ownership.lean`, theorems `destroy_frees_what_is_owned`,
+`constructors_allocate_what_is_owned` of Props/C19.lean), and with the counts (`blocks_eq_library_paths`).
+Sources: SRC/util.c:128-207 (Destroy_*), 360-372, 428-433 (StatInit/StatFree); SRC/[sdcz]util.c:38-160 (Create_*);
+SRC/sp_preorder.c:86-99; SRC/[sdcz]gstrf.c:436-460 (L and U are headers around Glu's arrays);
+SRC/[sdcz]memory.c:190-349 ([sdcz]LUMemInit fills Glu), 437-450 ([sdcz]LUWorkFree).
+Documented SuperLU behaviour recorded here: `[sdcz]Create_*_Matrix` allocate only the `Store` header and keep the
+caller's arrays; `Destroy_CompCol_Matrix` etc. free those arrays as well (the matrix takes them over), while
+`Destroy_SuperMatrix_Store` frees the header only - the releaser for L and U whose arrays live in the caller's work
+area (`lwork > 0`). -/
+
+/-- where a pointer stored in an object comes from -/
+inductive Origin where
+  | lib                      -- a block the constructing routine allocates itself: a library block, counted in `Obj.blocks`
+  | caller (arg : String)    -- the caller's array, handed in as parameter `arg`; the object takes it over (its releaser frees it)
+  | glu (field : String)     -- `Glu->field`: obtained by [sdcz]LUMemInit from the allocator / the growable storage (a library block
+                             -- under library allocation, a piece of the caller's work area when `lwork > 0`)
+  | view (src : String)      -- a pointer into ANOTHER object (access path `src`): not owned, never released through this object
+deriving DecidableEq, Repr
+
+structure PathSpec where
+  path : String              -- `Store`, `Store->nzval`, `ops`, ...
+  origin : Origin
+deriving DecidableEq, Repr
+
+/-- one way of building an object, and the routine documented to release what was built -/
+structure ObjSpec where
+  name : String
+  ctors : List (String × String)   -- (constructing routine, parameter that receives the object)
+  releaser : String
+  releaserParam : String
+  workArea : Bool := false         -- the `glu` arrays are pieces of the caller's work area: not library blocks, not released
+  paths : List PathSpec
+deriving DecidableEq, Repr
+
+/-- the four precisions of a routine family: `fourPrec "" "gstrf"` = sgstrf, dgstrf, cgstrf, zgstrf -/
+def fourPrec (pre post : String) : List String := ["s", "d", "c", "z"].map fun p => pre ++ p ++ post
+
+def PathSpec.isOwned (ws : Bool) (p : PathSpec) : Bool :=
+  match p.origin with
+  | .lib => true
+  | .caller _ => true
+  | .glu _ => !ws
+  | .view _ => false
+
+def PathSpec.isLibrary (ws : Bool) (p : PathSpec) : Bool :=
+  match p.origin with
+  | .lib => true
+  | .glu _ => !ws
+  | _ => false
+
+/-- **the blocks the specification says the object owns**: exactly what its documented releaser must free -/
+def specOwned (s : ObjSpec) : List String := (s.paths.filter (PathSpec.isOwned s.workArea)).map (·.path)
+
+/-- the owned blocks that the library allocated (the others were the caller's arrays, taken over) -/
+def specLibrary (s : ObjSpec) : List String := (s.paths.filter (PathSpec.isLibrary s.workArea)).map (·.path)
+
+def compColPaths (val ind ptr : Origin) : List PathSpec :=
+  [⟨"Store", .lib⟩, ⟨"Store->nzval", val⟩, ⟨"Store->rowind", ind⟩, ⟨"Store->colptr", ptr⟩]
+
+/-- column-compressed matrix made by `[sdcz]Create_CompCol_Matrix(A, .., nzval, rowind, colptr, ..)` -/
+def specCompCol : ObjSpec :=
+  { name := "CompCol", ctors := (fourPrec "" "Create_CompCol_Matrix").map (·, "A"),
+    releaser := "Destroy_CompCol_Matrix", releaserParam := "A",
+    paths := compColPaths (.caller "nzval") (.caller "rowind") (.caller "colptr") }
+
+/-- row-compressed matrix made by `[sdcz]Create_CompRow_Matrix(A, .., nzval, colind, rowptr, ..)` -/
+def specCompRow : ObjSpec :=
+  { name := "CompRow", ctors := (fourPrec "" "Create_CompRow_Matrix").map (·, "A"),
+    releaser := "Destroy_CompRow_Matrix", releaserParam := "A",
+    paths := [⟨"Store", .lib⟩, ⟨"Store->nzval", .caller "nzval"⟩, ⟨"Store->colind", .caller "colind"⟩, ⟨"Store->rowptr", .caller "rowptr"⟩] }
+
+/-- dense matrix made by `[sdcz]Create_Dense_Matrix(X, m, n, x, ldx, ..)` -/
+def specDense : ObjSpec :=
+  { name := "Dense", ctors := (fourPrec "" "Create_Dense_Matrix").map (·, "X"),
+    releaser := "Destroy_Dense_Matrix", releaserParam := "A",
+    paths := [⟨"Store", .lib⟩, ⟨"Store->nzval", .caller "x"⟩] }
+
+/-- the arrays of a `SuperLUStat_t` (the struct itself is the caller's) -/
+def specStat : ObjSpec :=
+  { name := "Stat", ctors := [("StatInit", "stat")], releaser := "StatFree", releaserParam := "stat",
+    paths := [⟨"panel_histo", .lib⟩, ⟨"utime", .lib⟩, ⟨"ops", .lib⟩] }
+
+/-- the permuted-column view AC = A*Pc made by `sp_preorder`: shares A's values and row indices -/
+def specPermuted : ObjSpec :=
+  { name := "CompCol_Permuted", ctors := [("sp_preorder", "AC")], releaser := "Destroy_CompCol_Permuted", releaserParam := "A",
+    paths := [⟨"Store", .lib⟩, ⟨"Store->colbeg", .lib⟩, ⟨"Store->colend", .lib⟩,
+              ⟨"Store->nzval", .view "A->Store->nzval"⟩, ⟨"Store->rowind", .view "A->Store->rowind"⟩] }
+
+def superNodePaths (f : String → Origin) : List PathSpec :=
+  [⟨"Store", .lib⟩, ⟨"Store->nzval", f "nzval"⟩, ⟨"Store->nzval_colptr", f "nzval_colptr"⟩, ⟨"Store->rowind", f "rowind"⟩,
+   ⟨"Store->rowind_colptr", f "rowind_colptr"⟩, ⟨"Store->col_to_sup", f "col_to_sup"⟩, ⟨"Store->sup_to_col", f "sup_to_col"⟩]
+
+/-- supernodal matrix made by a direct call of `[sdcz]Create_SuperNode_Matrix` (public, not a ledger event of its own) -/
+def specSuperNode : ObjSpec :=
+  { name := "SuperNode", ctors := (fourPrec "" "Create_SuperNode_Matrix").map (·, "L"),
+    releaser := "Destroy_SuperNode_Matrix", releaserParam := "A", paths := superNodePaths .caller }
+
+/-- which array of `GlobalLU_t` each array of the L factor is ([sdcz]gstrf.c:447-450) -/
+def gluOfL : String → Origin
+  | "nzval" => .glu "lusup" | "nzval_colptr" => .glu "xlusup" | "rowind" => .glu "lsub"
+  | "rowind_colptr" => .glu "xlsub" | "col_to_sup" => .glu "supno" | _ => .glu "xsup"
+
+/-- the L factor returned by `[sdcz]gstrf` / `[sdcz]gsitrf` (and the drivers that call them) -/
+def specL (ws : Bool) : ObjSpec :=
+  { name := if ws then "L (work area)" else "L", ctors := (fourPrec "" "gstrf" ++ fourPrec "" "gsitrf").map (·, "L"),
+    releaser := if ws then "Destroy_SuperMatrix_Store" else "Destroy_SuperNode_Matrix", releaserParam := "A",
+    workArea := ws, paths := superNodePaths gluOfL }
+
+/-- the U factor -/
+def specU (ws : Bool) : ObjSpec :=
+  { name := if ws then "U (work area)" else "U", ctors := (fourPrec "" "gstrf" ++ fourPrec "" "gsitrf").map (·, "U"),
+    releaser := if ws then "Destroy_SuperMatrix_Store" else "Destroy_CompCol_Matrix", releaserParam := "A",
+    workArea := ws, paths := compColPaths (.glu "ucol") (.glu "usub") (.glu "xusub") }
+
+/-- the ways an object of the ledger can have been built -/
+def Obj.specs : Obj → List ObjSpec
+  | .mat _ => [specCompCol, specCompRow]
+  | .dense _ => [specDense]
+  | .stat _ => [specStat]
+  | .acview _ => [specPermuted]
+  | .facL _ ws => [specL ws]
+  | .facU _ ws => [specU ws]
+
+def allSpecs : List ObjSpec :=
+  [specCompCol, specCompRow, specDense, specStat, specPermuted, specSuperNode, specL false, specL true, specU false, specU true]
+
 structure State where
   live : List Obj := []     -- one entry per live block handed to the caller, tagged with its object
   temp : Nat := 0           -- live blocks internal to the running call
